@@ -11,4 +11,7 @@ for q, tq in grid_q:
             defines={'QBITS': q, 'RANGE_BITS': fb(r)},
             bound='q=%d, range=%g (concrete), every float32 v in [0,range]' % (q, r),
             covers='Quantizer::Init/QuantizeFloat, Dequantizer::Init/DequantizeFloat'))
+OBLIGATIONS.append(Ob('C04.params', 'C10/attr.cc', 'h_params', tier='quick', unwind=6, defines={'NCOMP': 2}, max_alloc=64, uf_float=True,
+    bound='2 points x 2 components, every float32 bit pattern, q symbolic 1..30; float subtraction abstracted as an uninterpreted function (the reference uses the same subtraction)',
+    covers='AttributeQuantizationTransform::ComputeParameters (NaN/Inf rejection, per-component minimum, range = largest extent, degenerate range 1.0)'))
 META = {}
